@@ -588,6 +588,29 @@ def run_c18(argv):
                              "c": f"{r.gamma:10.3e}", "tmin": f"{r.temp_min:9.2f}", "tmax": f"{r.temp_max:9.2f}",
                              "code": f"{r.reaction_type}", "source": r.source.strip()})
                 pend.append(f"{r:naunet}")
+            # narrowed after it was built (allowed species assigned to the loaded network), then written: what is read back has the
+            # species of the narrowed network - the same list the network itself reports, and renders from
+            if len(net.reaction_list) >= 2:
+                w4 = chk.scratch / f"w4-{fmt}{k}.naunet"
+                try:
+                    with silenced():
+                        keep_r = net.reaction_list[: max(1, len(net.reaction_list) // 2)]
+                        names = sorted({s.name for r in keep_r for s in r.reactants + r.products})
+                        net.allowed_species = names
+                        net.write(w4, "naunet")
+                        own = sorted(s.name for s in net.species)
+                    n4 = read_network("naunet", w4, "G" if fmt == "leeds" else None)
+                    with silenced():
+                        back4 = sorted(s.name for s in n4.species)
+                except Exception as e:
+                    chk.hist["narrow-refused:" + type(e).__name__] += 1
+                    own = back4 = None
+                if own is not None:
+                    chk.hist["narrow-then-write"] += 1
+                    if own != back4:
+                        chk.violation({"kind": "narrowed-species-differ", "input_format": fmt},
+                                      f"after assigning allowed_species the network lists the species {own}; the file it writes reads back "
+                                      f"with the species {back4}", input=show, allowed=names)
             if k == 0:
                 chk.sample({"input_format": fmt, "written": t1.split("\n")[0]})
     # export + re-render of whole projects (files *and* configuration): the C20 machinery on descriptions that carry rate
